@@ -546,6 +546,10 @@ impl MessageReceiver {
     target_reader_entity_id: EntityId,
     submessage: WriterSubmessage,
   ) {
+    if !submessage.sequence_numbers_are_valid() {
+      debug!("Invalid sequence numbers. Dropping {submessage:?}");
+      return;
+    }
     if self.dest_guid_prefix != self.own_guid_prefix && self.dest_guid_prefix != GuidPrefix::UNKNOWN
     {
       debug!(
@@ -805,6 +809,10 @@ impl MessageReceiver {
   }
 
   fn handle_reader_submessage(&self, submessage: ReaderSubmessage) {
+    if !submessage.sequence_numbers_are_valid() {
+      debug!("Invalid sequence numbers. Dropping {submessage:?}");
+      return;
+    }
     if self.dest_guid_prefix != self.own_guid_prefix && self.dest_guid_prefix != GuidPrefix::UNKNOWN
     {
       debug!(
